@@ -418,6 +418,46 @@ def check(report: Report, repo: Repo) -> None:
             raised = [e["exc"] for e in summ.events if e.kind == "raise"]
             ok = summ.error is None and not summ.cases and bool(raised)
             report.add("R5-params", f"{FUNCTIONAL}::{func}::reduction", ok if summ.error is None else None, f"reduction='{red}' is not implemented by the unit-scaled loss: it must be rejected with an error, not silently treated as another reduction", f"returns {fmt(summ.result)[:120]}" if summ.cases else f"raises {raised}", "raises")
+    # ---- R7 history independence: the second of two calls with different sizes (same ranks, same options), made in one
+    # abstract process, gives what a fresh process gives (a result memoised under a key that omits a size would not)
+    n_hist = 0
+    default_sets = dict(c01_schema_sets("quick"))["default-constraint"]
+    for func in PUBLIC_FUNCTIONS:
+        schs = strip_default_constraint({func: default_sets.get(func, [])})[func]
+        if not schs:
+            continue
+        sch = schs[0]
+        ren = {}
+
+        def rename(v: Any) -> Any:
+            if isinstance(v, TV) and v.shape is not None:
+                for d_ in v.shape:
+                    for s_ in getattr(d_, "free_symbols", ()):
+                        ren.setdefault(s_, sp.Symbol(s_.name + "_2", integer=True, positive=True))
+                return TV(v.term, shape=type(v.shape)(tuple(sp.sympify(d_).subs(ren) if hasattr(d_, "subs") else d_ for d_ in v.shape)), dtype=v.dtype, alias=v.alias, kind=v.kind)
+            if isinstance(v, tuple):
+                return tuple(sp.sympify(x_).subs(ren) if isinstance(x_, sp.Basic) else x_ for x_ in v)
+            return v
+
+        try:
+            f_a = Interp(repo)
+            f_a.decide = SC.dims_ge2_decider
+            fa = f_a.get_global(FUNCTIONAL, func)
+            args1 = fill_args(f_a, fa, sch.args)
+            args2 = {k_: rename(v_) for k_, v_ in args1.items()}
+            args2 = {k_: rename(v_) for k_, v_ in args1.items()}  # second pass: every symbol now has its partner
+            f_a.call_function(fa, [], dict(args1))
+            second = f_a.call_function(fa, [], dict(args2))
+            f_b = Interp(repo)
+            f_b.decide = SC.dims_ge2_decider
+            fresh = f_b.call_function(f_b.get_global(FUNCTIONAL, func), [], dict(args2))
+        except Unsupported as e:
+            report.add("R7-history", f"{FUNCTIONAL}::{func}::second-call", None, f"outside fragment: {e}")
+            continue
+        n_hist += 1
+        same = TM.term_equal(TM.normalize(TM.term_of(second)), TM.normalize(TM.term_of(fresh)))
+        report.add("R7-history", f"{FUNCTIONAL}::{func}::second-call", same, f"{sch.name}: a call with other sizes after a first call returns what it returns in a fresh process (no state kept between calls under a key that omits a size)", fmt(TM.term_of(second))[:200], fmt(TM.term_of(fresh))[:200], nontrivial=False)
+    report.floor("functions evaluated twice in one process", n_hist, 15)
     report.note("public_functions", PUBLIC_FUNCTIONS)
     report.note("summaries", n_summ)
     report.note("scale_sites_evaluated", n_sites)
